@@ -92,6 +92,12 @@ def families(tier):
         hs = [dict(bus='A', pat='P', name='hp', prog=hp), dict(bus='A', pat='C', name='hc', prog=[('disp', 'A', 'G', 'ff', {'parent': 'P'})]),
               dict(bus='A', pat='G', name='hg', prog=[('ret', 1)])]
         add('c09.redispatch', shape, {'A': {}}, hs, [('disp', 'A', 'P', 'await'), ('disp', 'A', 'X', 'ff')])
+    # the event being handled is an instance of a subclass that is falsy (an empty batch: __len__ == 0): lineage must not depend on the truth value of an event
+    for m1, b2, par in itertools.product(['ff', 'await'], 'AB', (False, True)):
+        buses = {'A': dict(parallel=par), 'B': {}}
+        hs = [dict(bus='A', pat='E', name='he', prog=[('disp', 'A', 'C1', m1), ('disp', b2, 'C2', 'await'), ('pause',)]), dict(bus='A', pat='E', name='he2', prog=[('pause',), ('disp', 'A', 'C3', 'ff')]),
+              dict(bus='A', pat='C', name='hcA', prog=[('pause',)]), dict(bus='B', pat='C', name='hcB', prog=[('ret', 1)]), dict(bus='A', pat='X', name='hx', prog=[('ret', 0)])]
+        add('c09.falsy_parent_event', f'{m1}-{b2}-p{int(par)}', buses, hs, [('disp', 'A', 'E', 'ff'), ('pause',), ('disp', 'A', 'X', 'ff'), ('await', 'E')], par=par)
     # a dispatch made inside a handler is REJECTED (backlog limit), the caller keeps the object and dispatches it again later - from ordinary code (no parent,
     # nobody's child) or from a handler of an unrelated event (that handler's child, that event as parent)
     for nburst, again, hist in itertools.product((53, 60), ('main', 'other_handler'), (50, 5)):
@@ -113,8 +119,8 @@ def trigger(spec, res):
 def oracle(spec, res):
     tr = Trace(res)
     out = []
-    if res['verdict'][0] != 'done':
-        return out
+    # (lineage is fixed at dispatch time: the clauses below are judged on whatever was dispatched, also when the run did not come to rest - that an
+    # await never returns is for C03 / C04 to say, a wrong parent is wrong either way)
     fin = res['final']['events']
     explicit = {}
     for h in [spec['scn']['main']] + list(spec['scn'].get('actors', [])) + [h['prog'] for h in spec['scn']['handlers']]:
